@@ -1,0 +1,15 @@
+//go:build verif
+// +build verif
+
+package tcp
+
+import "github.com/brewlin/net-protocol/protocol/header"
+
+// Harnesses for the verifier in /verif (build tag verif): real code composed so that a
+// round-trip property becomes a postcondition. Contracts are in contracts_verif.go.
+
+// verifSynOptionsRoundTrip: the SYN options this stack encodes, parsed by its own parser.
+func verifSynOptionsRoundTrip(opts header.TCPSynOptions, isAck bool) header.TCPSynOptions {
+	b := makeSynOptions(opts)
+	return header.ParseSynOptions(b, isAck)
+}
